@@ -32,6 +32,23 @@ class C01(Plugin):
 # ======================================================================================================================
 # C12 - a failed edit leaves the tree untouched and still editable
 
+_SPLICES = [0]
+
+
+def _install_splice_counter():
+    """Harness-side reach probe (no repo change): count source splices (`FST._put_src`) performed during a request."""
+    import fst
+    if getattr(fst.FST._put_src, '_verif_counted', False):
+        return
+    orig = fst.FST._put_src
+
+    def _put_src(self, *a, **kw):
+        _SPLICES[0] += 1
+        return orig(self, *a, **kw)
+    _put_src._verif_counted = True
+    fst.FST._put_src = _put_src
+
+
 @plugin
 class C12(Plugin):
     prop = 'C12'
@@ -44,11 +61,13 @@ class C12(Plugin):
         cfg['fault_kinds'] = [k for k in FAULT_KINDS if rng.random() < 0.6] or [rng.choice(FAULT_KINDS)]
         cfg['p_same_cat'] = rng.choice([0.3, 0.6, 0.9])
         cfg['warm'] = rng.choice([0.0, 0.5, 1.0])
+        cfg['cache_check'] = rng.choice([False, False, True])
         return cfg
 
     def start(self):
         self.nprobe = 0
         self.probe_pending = False
+        _install_splice_counter()
 
     def gen_op(self, rng):
         from .faults import gen_fault
@@ -76,10 +95,14 @@ class C12(Plugin):
                         g.loc, g.bloc, g.pars()
             except Exception:
                 pass
+        _SPLICES[0] = 0
         return run.snapshot()
 
     def post_op(self, op, ctx, out):
         run = self.run
+        if out[0] == 'exc' and _SPLICES[0]:  # reach probe: the request failed AFTER the source had already been spliced
+            run.stats['late_failures_after_a_splice'] += 1
+            run.stats['late_failure_splices'] += _SPLICES[0]
         if out[0] == 'ok':
             run.core_after_ok(False)
             if op.get('fault'):
@@ -114,6 +137,14 @@ class C12(Plugin):
             raise Violation('tree_changed_by_failed_edit', f'{O.exc_repr(e)} | {_first_diff(dump, d2)}')
         if modifying_registry():
             raise Violation('lock_survives_failed_edit', f'{O.exc_repr(e)} | fst_core._MODIFYING has {len(modifying_registry())} entries')
+        if run.cfg.get('cache_check'):  # no half-updated cached answer survives the failed edit
+            import fst
+            from . import queries
+            live = queries.query_tree(run.root, 2)
+            fresh = queries.query_tree(fst.FST(src, 'exec'), 2)
+            run.stats['cache_checks_after_failure'] += 1
+            if live != fresh:
+                raise Violation('stale_answer_after_failed_edit', f'{O.exc_repr(e)} | ' + repr(queries.diff(live, fresh))[:1200])
         self.probe_pending = True
 
     def finish(self):
